@@ -37,6 +37,24 @@ def _case(draw, worlds):
             'schedule': draw(st.lists(st.integers(0, 63), max_size=100))}
 
 
+@st.composite
+def _tied_case(draw):
+    """A model in which two registered layers share one weight Parameter (weight tying)."""
+    n = draw(st.integers(1, 4))
+    layers = [{'t': 'linear', 'in': n, 'out': n, 'bias': draw(st.booleans()), 'sub': False}, {'t': 'act', 'name': 'tanh'},
+              {'t': 'linear', 'in': n, 'out': n, 'bias': draw(st.booleans()), 'sub': False, 'tie_to': 0}]
+    if draw(st.booleans()):
+        layers += [{'t': 'act', 'name': 'tanh'}, {'t': 'linear', 'in': n, 'out': draw(st.integers(1, 3)), 'bias': draw(st.booleans()), 'sub': False}]
+    method = draw(st.sampled_from(['eigen', 'inverse']))
+    return {'kind': 'tied', 'W': 1, 'k': 1, 'fraction': 'float', 'colocate': True, 'heuristic': 'compute', 'cap': 25.0, 'symmetry': False,
+            'method': method, 'prediv': draw(st.booleans()) if method == 'eigen' else False,
+            'spec': {'seed': draw(st.integers(0, 999)), 'input': {'in': n, 'lead': []}, 'layers': layers},
+            'N': draw(st.integers(1, 4)), 'style': 'gauss', 'param_dtype': 'float32',
+            'hp': {'factor_update_steps': 1, 'inv_update_steps': 1, 'damping': draw(st.sampled_from([0.003, 0.03, 0.3])), 'factor_decay': 0.95,
+                   'kl_clip': draw(st.sampled_from([1e-3, 1e-5, 1e-2])), 'lr': draw(st.sampled_from([0.1, 1.0]))},
+            'steps': draw(st.integers(1, 3)), 'update': 'noise', 'data_seed': draw(st.integers(0, 9999)), 'zero_to_none': True, 'schedule': []}
+
+
 def _at(v, step):
     if isinstance(v, dict):
         t = v.get('table') or v.get('live')      # 'live': value of training iteration `step` (programs here are train ops only)
@@ -73,16 +91,17 @@ class C07(Prop):
             'kl_clip=None constructs and gives exactly V (bit-identical). Non-trivial: some step has nu_pred < 0.99 with >= 2 layers, or kl None, or a zero gradient.')
     assumptions = ['V of the unclipped run is bit-identical to the clipped run\'s pre-scaling result (same operations), so only the scalar is under test',
                    'GPT-NeoX share (one quarter of the cases): pipe 1-2 x data 1-2 x model 1-2 on DeepSpeed/Megatron doubles; model >= 2 with active clipping is the open known finding F7',
+                   'one case in nine is a model with tied weights (two registered layers share one weight Parameter): there only "every parameter is scaled by one positive scalar <= 1 relative to the unclipped run" is checked',
                    'with pipe = 2 every stage has its own preconditioner instance: "sum over layers" may be the instance\'s layers (what the code does) or all layers of the model; a run must follow one of the two readings consistently, anything else is reported (key clip-scale-pipeline)']
     examples = {'quick': 120, 'thorough': 500}
     shards = {'quick': 4, 'thorough': 16}
     shrink_budget_s = {'quick': 30.0, 'thorough': 180.0}
-    required_labels = {'quick': ['nontrivial=True', 'kl_none=True', 'clip_active=True', 'zero_grad=True', 'multi_rank=True', 'pipe=2', 'live_hp=True'],
+    required_labels = {'quick': ['nontrivial=True', 'kl_none=True', 'clip_active=True', 'zero_grad=True', 'multi_rank=True', 'pipe=2', 'live_hp=True', 'tied_weights=True'],
                        'thorough': ['nontrivial=True', 'kl_none=True', 'clip_active=True', 'zero_grad=True', 'multi_rank=True', 'lr_zero=True']}
 
     def strategy(self, tier):
         k = _case([1, 1, 2, 4] if tier == 'quick' else [1, 1, 2, 3, 4, 6, 8])
-        return st.one_of(k, k, k, _gpt_case())
+        return st.one_of(k, k, k, k, k, k, _gpt_case(), _gpt_case(), _tied_case())
 
     def summarize(self, infos):
         r = sorted(i['worst'] for i in infos if 'worst' in i)
@@ -91,7 +110,49 @@ class C07(Prop):
     def run_case(self, case):
         if case.get('kind') == 'gpt':
             return self._gpt(case)
+        if case.get('kind') == 'tied':
+            return self._tied(case)
         return self._kaisa(case)
+
+    def _tied(self, case):
+        """Tied weights: the per-layer V is not observable (the shared gradient is written twice), so only the part of the statement
+        that is: the clipped run's gradients are ONE positive scalar <= 1 times the unclipped run's, for every parameter."""
+        import copy
+        import torch
+        from vkit import kaisa
+        program = [{'op': 'train', 'seed': case['data_seed'] + t} for t in range(case['steps'])]
+        labels = {'tied_weights': True, 'W': 1, 'multi_rank': False, 'method': case['method']}
+        unclipped = copy.deepcopy(case)
+        unclipped['hp']['kl_clip'] = 1e30
+        try:
+            base = kaisa.run_single(unclipped, program, observe=('grads_before',))
+            clipped = kaisa.run_single(case, program, observe=('grads_before',))
+        except Exception as e:  # noqa: BLE001
+            return violation(f'tied-weight model: run raised {type(e).__name__}: {e}', 'exception', labels=labels)
+        active = False
+        for t in range(case['steps']):
+            b = [r for r in base if r['op'] == 'train'][t]
+            c = [r for r in clipped if r['op'] == 'train'][t]
+            scales = {}
+            for n, V in b['after'].items():
+                got = c['after'][n]
+                vv = (V.double() * V.double()).sum().item()
+                if vv == 0:
+                    continue
+                sc = (got.double() * V.double()).sum().item() / vv
+                err = (got.double() - sc * V.double()).norm().item() / max((sc * V.double()).norm().item(), 1e-300)
+                if err > 5e-6:
+                    return violation(f'step {t}: gradient of {n} is not a multiple of the unclipped preconditioned gradient (relative error {err:.3e})', 'clip-direction', labels=labels)
+                scales[n] = sc
+            if scales:
+                lo, hi = min(scales.values()), max(scales.values())
+                if lo <= 0 or hi > 1 + 1e-5:
+                    return violation(f'step {t}: clip factors {scales} outside (0, 1]', 'clip-scale', labels=labels)
+                if (hi - lo) > 5e-6 * hi:
+                    return violation(f'step {t}: the parameters of a tied-weight model were scaled by different factors {scales} (one shared scalar expected)', 'clip-scale', labels=labels)
+                active |= hi < 0.99
+        labels.update({'nontrivial': active, 'clip_active': active})
+        return passed(active, labels)
 
     def _gpt(self, case):
         import copy
